@@ -14,6 +14,7 @@ PLANS = {
     "C03": {"level": "exploration", "exhaustive": False, "legs": [leg("main")]},
     "C01": {"level": "exploration", "exhaustive": False, "legs": [leg("main")]},
     "C02": {"level": "exploration", "exhaustive": False, "legs": [leg("main"), leg("race", flavour="race", tiers=("thorough",), env={"VERIF_SMALL": "1"})]},
+    "C11": {"level": "exploration", "exhaustive": False, "legs": [leg("main"), leg("race", flavour="race", tiers=("thorough",), env={"VERIF_SMALL": "1"})]},
     "C15": {"level": "exploration", "exhaustive": False, "legs": [leg("main")]},
     "C16": {"level": "exploration", "exhaustive": False, "legs": [leg("main")]},
     "C19": {"level": "exploration", "exhaustive": False, "legs": [leg("main")]},
